@@ -294,6 +294,8 @@ func (j *Job) start() error {
 	j.log.Info("starting")
 
 	// Get the job's current checkpoint which may be nil
+	// A checkpoint the previous assembly left in progress can never complete.
+	j.snapshotStore.AbandonPendingCheckpoint()
 	ckpt := j.snapshotStore.CurrentCheckpoint()
 
 	// Create the source splitter
